@@ -5,7 +5,8 @@ mkdir -p /tmp/wtv; git -C /repo worktree add -f $wt HEAD >/dev/null 2>&1
 cd $wt
 run_demo() { PYTHONPATH=$wt/src timeout 120 /venv/bin/python $d/demo.py >/tmp/wtv/$name.$1.log 2>&1; echo $?; }
 clean=$(run_demo clean)
-if git apply --check $d/patch.diff 2>/dev/null; then git apply $d/patch.diff; applied=1; else applied=0; fi
+pf=$d/patch.diff; [ -f $d/patch.rebased.diff ] && pf=$d/patch.rebased.diff
+if git apply --check $pf 2>/dev/null; then git apply $pf; applied=1; else applied=0; fi
 tests=$(PYTHONPATH=$wt/src timeout 600 /venv/bin/python -m pytest -q -p no:cacheprovider -x 2>&1 | tail -1)
 mut=$(run_demo mutated)
 cd /; git -C /repo worktree remove --force $wt
